@@ -1,5 +1,5 @@
 (* C17 - A response fits the transport buffer completely or becomes a one-byte error. *)
-From Ctap Require Import Base Schema Wire Typed Procs Inst Tables ProcTables Finite FramingP ObRespTables ObResponseSide FnShapes Shapes ObShapeResponse Deps ObDeps.
+From Ctap Require Import Base Schema Wire Typed Procs Inst Tables ProcTables Finite FramingP ObRespTables ObResponseSide FnShapes Shapes ObShapeResponse Deps ObDeps ObShapeFilters ObShapeBuilders.
 Local Open Scope string_scope.
 Local Open Scope Z_scope.
 
@@ -88,6 +88,12 @@ Proof. exact generated_deps. Qed.
 Theorem c17_feature_table_unchanged : features_hold cargo_features = true.
 Proof. exact generated_features. Qed.
 
+(* the hand-written Serialize impls nested in the responses (filtered algorithm list) and the builders *)
+Theorem c17_modelled_functions_unchanged_filters : shapes_hold fn_shapes shapes_filters = true.
+Proof. exact generated_shapes_filters. Qed.
+Theorem c17_modelled_functions_unchanged_builders : shapes_hold fn_shapes shapes_builders = true.
+Proof. exact generated_shapes_builders. Qed.
+
 Eval vm_compute in "ASSUMPTIONS c17_fits_or_7f". Print Assumptions c17_fits_or_7f.
 Eval vm_compute in "ASSUMPTIONS c17_parameterless". Print Assumptions c17_parameterless.
 Eval vm_compute in "ASSUMPTIONS c17_prior_independent". Print Assumptions c17_prior_independent.
@@ -100,3 +106,5 @@ Eval vm_compute in "ASSUMPTIONS c17_generated_conforms". Print Assumptions c17_g
 Eval vm_compute in "ASSUMPTIONS c17_modelled_functions_unchanged_response". Print Assumptions c17_modelled_functions_unchanged_response.
 Eval vm_compute in "ASSUMPTIONS c17_modelled_dependencies_pinned". Print Assumptions c17_modelled_dependencies_pinned.
 Eval vm_compute in "ASSUMPTIONS c17_feature_table_unchanged". Print Assumptions c17_feature_table_unchanged.
+Eval vm_compute in "ASSUMPTIONS c17_modelled_functions_unchanged_filters". Print Assumptions c17_modelled_functions_unchanged_filters.
+Eval vm_compute in "ASSUMPTIONS c17_modelled_functions_unchanged_builders". Print Assumptions c17_modelled_functions_unchanged_builders.
